@@ -115,3 +115,53 @@ def rho_dot3(m, maxabs):
     a = [abs(F(mj)) * F(pj) for mj, pj in zip(m, maxabs)]
     u = U32
     return u * (2 * a[0] + 3 * a[1] + 3 * a[2]) * (1 + F(1, 2 ** 18)) + 3 * ETA32
+
+
+def parse_model(txt):
+    """z3 (get-model) output -> {name: Fraction} for Real constants"""
+    import re
+    out = {}
+    toks = re.findall(r"\(|\)|[^\s()]+", txt)
+    pos = 0
+
+    def parse():
+        nonlocal pos
+        t = toks[pos]
+        pos += 1
+        if t == "(":
+            lst = []
+            while toks[pos] != ")":
+                lst.append(parse())
+            pos += 1
+            return lst
+        return t
+
+    def ev(e):
+        if isinstance(e, str):
+            return F(e)
+        op = e[0]
+        if op == "-" and len(e) == 2:
+            return -ev(e[1])
+        if op == "-":
+            return ev(e[1]) - ev(e[2])
+        if op == "/":
+            return ev(e[1]) / ev(e[2])
+        if op == "+":
+            return sum(ev(x) for x in e[1:])
+        if op == "*":
+            r = F(1)
+            for x in e[1:]:
+                r *= ev(x)
+            return r
+        raise ValueError(op)
+    try:
+        tree = parse()
+    except Exception:
+        return out
+    for d in tree if isinstance(tree, list) else []:
+        if isinstance(d, list) and len(d) == 5 and d[0] == "define-fun" and d[2] == [] and d[3] == "Real":
+            try:
+                out[d[1]] = ev(d[4])
+            except Exception:
+                pass
+    return out
